@@ -94,7 +94,10 @@ func (h *Handler) ServeHTTP(w http.ResponseWriter, r *http.Request) {
 			err = h.Backend.Put(w, r)
 		case http.MethodDelete:
 			// TODO: send a multistatus in case of partial failure
-			err = h.Backend.Delete(r)
+			err = checkDeleteDepth(r)
+			if err == nil {
+				err = h.Backend.Delete(r)
+			}
 			if err == nil {
 				w.WriteHeader(http.StatusNoContent)
 			}
@@ -117,6 +120,25 @@ func (h *Handler) ServeHTTP(w http.ResponseWriter, r *http.Request) {
 	if err != nil {
 		ServeError(w, err)
 	}
+}
+
+// checkDeleteDepth refuses a DELETE carrying a Depth header other than
+// "infinity": DELETE always acts on the whole subtree.
+//
+// https://tools.ietf.org/html/rfc4918#section-9.6.1
+func checkDeleteDepth(r *http.Request) error {
+	s := r.Header.Get("Depth")
+	if s == "" {
+		return nil
+	}
+	depth, err := ParseDepth(s)
+	if err != nil {
+		return &HTTPError{http.StatusBadRequest, err}
+	}
+	if depth != DepthInfinity {
+		return HTTPErrorf(http.StatusBadRequest, "webdav: Depth must be infinity for DELETE")
+	}
+	return nil
 }
 
 func (h *Handler) handleOptions(w http.ResponseWriter, r *http.Request) error {
